@@ -13,7 +13,7 @@ Shared evaluator lemmas for `RuschmModel/Eval.lean`.
    `Evals.call`, `Evals.call_nonproc`, `EvalsArgs.nil/cons/cons_err…`, `Applies.builtin`,
    `Applies.closure_value`, `Applies.closure_tail`, `Applies.apply`, `Applies.arity_err`, …).
 -/
-import RuschmModel.Eval
+import RuschmSpec.Ref
 namespace Ruschm.Eval
 open Prim
 
@@ -735,5 +735,206 @@ theorem EvalsTail.other_err {σ ρ e er σ'} (hcall : ∀ f as l, e ≠ .call f 
     · exact absurd rfl (hcall _ _ _)
     · exact absurd rfl (hcond _ _ _ _)
     · rw [h₁ n hn]
+
+
+/-! ## Inversion: what a settled run of a compound form consists of -/
+
+theorem Evals.cond_inv {σ ρ t c a l r σ'} (h : Evals σ ρ (.cond t c a l) r σ') :
+    (∃ er, Evals σ ρ t (.error er) σ' ∧ r = .error er) ∨
+    (∃ tv σ₁, Evals σ ρ t (.ok tv) σ₁ ∧
+      ((tv.truthy = true ∧ Evals σ₁ ρ c r σ') ∨
+       (tv.truthy = false ∧ ∃ alt, a = some alt ∧ Evals σ₁ ρ alt r σ') ∨
+       (tv.truthy = false ∧ a = none ∧ r = .ok .void ∧ σ' = σ₁))) := by
+  obtain ⟨hr, N, hN⟩ := h.out
+  clear h
+  have h := hN (N+1) (by omega)
+  clear hN
+  rw [evalExpr] at h
+  split at h
+  next er σ₁ heq => cases h; exact .inl ⟨er, Evals.intro heq hr, rfl⟩
+  next tv σ₁ heq =>
+    refine .inr ⟨tv, σ₁, Evals.intro heq (by simp), ?_⟩
+    split at h
+    next htv => exact .inl ⟨htv, Evals.intro h hr⟩
+    next htv =>
+      have htv : tv.truthy = false := by simpa using htv
+      split at h
+      next alt => exact .inr (.inl ⟨htv, alt, rfl, Evals.intro h hr⟩)
+      next => cases h; exact .inr (.inr ⟨htv, rfl, rfl, rfl⟩)
+
+theorem Evals.call_inv {σ ρ f args l r σ'} (h : Evals σ ρ (.call f args l) r σ') :
+    (∃ er, Evals σ ρ f (.error er) σ' ∧ r = .error er) ∨
+    (∃ fv σ₁ ra σ₂, Evals σ ρ f (.ok fv) σ₁ ∧ EvalsArgs σ₁ ρ args ra σ₂ ∧
+      ((procArity fv = none ∧ r = .error (.nonProcedure, f.loc) ∧ σ' = σ₂) ∨
+       ((procArity fv).isSome ∧ ∃ er, ra = .error er ∧ r = .error er ∧ σ' = σ₂) ∨
+       ((procArity fv).isSome ∧ ∃ vs, ra = .ok vs ∧ AppliesProc σ₂ fv vs ρ r σ'))) := by
+  obtain ⟨hr, N, hN⟩ := h.out
+  clear h
+  have h := hN (N+1) (by omega)
+  clear hN
+  rw [evalExpr] at h
+  split at h
+  next er σ₁ heq => cases h; exact .inl ⟨er, Evals.intro heq hr, rfl⟩
+  next fv σ₁ heq =>
+    split at h
+    next ra σ₂ hargs =>
+      refine .inr ⟨fv, σ₁, ra, σ₂, Evals.intro heq (by simp), ?_⟩
+      split at h
+      next a hpa =>
+        split at h
+        next er => cases h; exact ⟨EvalsArgs.intro hargs hr.cast, .inr (.inl ⟨by simp [hpa], er, rfl, rfl, rfl⟩)⟩
+        next vs => exact ⟨EvalsArgs.intro hargs (by simp), .inr (.inr ⟨by simp [hpa], vs, rfl, AppliesProc.intro h hr⟩)⟩
+      next hpa =>
+        split at h
+        next l => cases h; simp at hr
+        next hnf =>
+          cases h
+          refine ⟨EvalsArgs.intro hargs ?_, .inl ⟨hpa, rfl, rfl⟩⟩
+          cases ra with
+          | ok _ => simp
+          | error e =>
+            obtain ⟨e, l⟩ := e
+            by_cases he : e = .fuel
+            · subst he; exact absurd rfl (hnf l)
+            · exact .error_of he
+
+theorem EvalsArgs.nil_inv {σ ρ r σ'} (h : EvalsArgs σ ρ [] r σ') : r = .ok [] ∧ σ' = σ := by
+  obtain ⟨_, N, hN⟩ := h.out
+  clear h
+  have h := hN (N+1) (by omega)
+  clear hN
+  rw [evalArgs] at h; cases h; exact ⟨rfl, rfl⟩
+
+theorem EvalsArgs.cons_inv {σ ρ a as r σ'} (h : EvalsArgs σ ρ (a :: as) r σ') :
+    (∃ er, Evals σ ρ a (.error er) σ' ∧ r = .error er) ∨
+    (∃ v σ₁, Evals σ ρ a (.ok v) σ₁ ∧
+      ((∃ er, EvalsArgs σ₁ ρ as (.error er) σ' ∧ r = .error er) ∨
+       (∃ vs, EvalsArgs σ₁ ρ as (.ok vs) σ' ∧ r = .ok (v :: vs)))) := by
+  obtain ⟨hr, N, hN⟩ := h.out
+  clear h
+  have h := hN (N+1) (by omega)
+  clear hN
+  rw [evalArgs] at h
+  split at h
+  next er σ₁ heq => cases h; exact .inl ⟨er, Evals.intro heq hr.cast, rfl⟩
+  next v σ₁ heq =>
+    refine .inr ⟨v, σ₁, Evals.intro heq (by simp), ?_⟩
+    split at h
+    next er σ₂ heq2 => cases h; exact .inl ⟨er, EvalsArgs.intro heq2 hr, rfl⟩
+    next vs σ₂ heq2 => cases h; exact .inr ⟨vs, EvalsArgs.intro heq2 (by simp), rfl⟩
+
+/-- `evalArgs` is the left-to-right `mapM` of `Evals` -/
+theorem evalsArgs_iff_mapEvals {σ ρ es r σ'} : EvalsArgs σ ρ es r σ' ↔ Ref.MapEvals (fun σ e r σ' => Evals σ ρ e r σ') σ es r σ' := by
+  induction es generalizing σ r σ' with
+  | nil =>
+    simp only [Ref.MapEvals]
+    exact ⟨fun h => h.nil_inv, fun ⟨h₁, h₂⟩ => h₁ ▸ h₂ ▸ EvalsArgs.nil⟩
+  | cons a as ih =>
+    simp only [Ref.MapEvals]
+    constructor
+    · intro h
+      rcases h.cons_inv with ⟨er, h₁, rfl⟩ | ⟨v, σ₁, h₁, ⟨er, h₂, rfl⟩ | ⟨vs, h₂, rfl⟩⟩
+      · exact .inl ⟨er, h₁, rfl⟩
+      · exact .inr ⟨v, σ₁, h₁, .inl ⟨er, ih.mp h₂, rfl⟩⟩
+      · exact .inr ⟨v, σ₁, h₁, .inr ⟨vs, ih.mp h₂, rfl⟩⟩
+    · rintro (⟨er, h₁, rfl⟩ | ⟨v, σ₁, h₁, ⟨er, h₂, rfl⟩ | ⟨vs, h₂, rfl⟩⟩)
+      · exact .cons_err h₁
+      · exact .cons_tail_err h₁ (ih.mpr h₂)
+      · exact .cons h₁ (ih.mpr h₂)
+
+/-- with enough fuel for the whole list, `evalArgs` is literally `mapEval` of `evalExpr` at that fuel -/
+theorem evalArgs_eq_mapEval {n σ ρ es r σ'} (h : evalArgs n σ ρ es = (r, σ')) (hr : NotFuel r) :
+    Ref.mapEval (fun σ e => evalExpr n σ ρ e) σ es = (r, σ') := by
+  induction es generalizing n σ r σ' with
+  | nil =>
+    cases n with
+    | zero => rw [evalArgs] at h; cases h; simp at hr
+    | succ n => rw [evalArgs] at h; exact h
+  | cons a as ih =>
+    cases n with
+    | zero => rw [evalArgs] at h; cases h; simp at hr
+    | succ n =>
+      rw [evalArgs] at h
+      simp only [Ref.mapEval]
+      split at h
+      next er σ₁ heq => cases h; rw [evalExpr_mono_le heq hr.cast (Nat.le_succ n)]
+      next v σ₁ heq =>
+        rw [evalExpr_mono_le heq (by simp) (Nat.le_succ n)]; simp only
+        split at h
+        next er σ₂ heq2 =>
+          cases h
+          rw [ih (evalArgs_mono_le heq2 hr (Nat.le_succ n)) hr]
+        next vs σ₂ heq2 =>
+          cases h
+          rw [ih (evalArgs_mono_le heq2 (by simp) (Nat.le_succ n)) (by simp)]
+
+/-! ## Variable lookup and the parent chain -/
+
+theorem lookupAux_eq_chainAux {σ : Store} (h : Ref.ParentsOlder σ) (x : String) :
+    ∀ k₁ k₂ ρ, ρ < k₁ → ρ < k₂ →
+      σ.lookupAux k₁ ρ x = (Ref.chainAux σ k₂ ρ).findSome? (Ref.frameBinding σ x) := by
+  intro k₁
+  induction k₁ with
+  | zero => intro k₂ ρ h1; omega
+  | succ k₁ ih =>
+    intro k₂ ρ h1 h2
+    obtain ⟨k₂, rfl⟩ : ∃ m, k₂ = m + 1 := ⟨k₂ - 1, by omega⟩
+    rw [Store.lookupAux, Ref.chainAux]
+    cases hf : σ.frames[ρ]? with
+    | none => simp
+    | some f =>
+      simp only [List.findSome?_cons, Ref.frameBinding, hf, Option.bind_some]
+      cases hx : f.defs.lookup x with
+      | some v => simp
+      | none =>
+        simp only
+        cases hp : f.parent with
+        | none => simp
+        | some p =>
+          have hlt := h ρ f p hf hp
+          simp only [hlt, if_true]
+          exact ih k₂ p (by omega) (by omega)
+
+theorem lookup_eq_chain {σ : Store} (h : Ref.ParentsOlder σ) (ρ : Nat) (x : String) :
+    σ.lookup ρ x = (Ref.chain σ ρ).findSome? (Ref.frameBinding σ x) := by
+  unfold Store.lookup Ref.chain
+  by_cases hρ : ρ < σ.frames.size
+  · exact lookupAux_eq_chainAux h x _ _ ρ (by omega) hρ
+  · have : σ.frames[ρ]? = none := by simp; omega
+    rw [Store.lookupAux]; simp only [this]
+    cases hs : σ.frames.size with
+    | zero => simp [Ref.chainAux]
+    | succ k => simp [Ref.chainAux, this]
+
+
+theorem parentsOlder_empty : Ref.ParentsOlder {} := by
+  intro i f p h; simp at h
+
+theorem parentsOlder_newFrame {σ : Store} (h : Ref.ParentsOlder σ) {parent : Option Nat}
+    (hp : ∀ p, parent = some p → p < σ.frames.size) : Ref.ParentsOlder (σ.newFrame parent).2 := by
+  intro i f p hf hfp
+  simp only [Store.newFrame] at hf
+  rw [Array.getElem?_push] at hf
+  split at hf
+  next hi' => cases hf; exact hi' ▸ hp p hfp
+  next hi' => exact h i f p hf hfp
+
+theorem parentsOlder_define {σ : Store} (h : Ref.ParentsOlder σ) (ρ : Nat) (k : String) (v : Value) :
+    Ref.ParentsOlder (σ.define ρ k v) := by
+  intro i f p hf hfp
+  unfold Store.define at hf
+  split at hf
+  next hρ =>
+    simp only [Array.getElem?_modify] at hf
+    split at hf
+    next hi =>
+      cases hg : σ.frames[i]? with
+      | none => simp [hg] at hf
+      | some g =>
+        simp only [hg, Option.map_some, Option.some.injEq] at hf
+        subst hf
+        exact h i g p hg hfp
+    next => exact h i f p hf hfp
+  next => exact h i f p hf hfp
 
 end Ruschm.Eval
